@@ -45,6 +45,10 @@ type c17step struct {
 	tail  []byte
 	// cutHeader: if the newest segment is header-only at that moment, cut it to 300 bytes instead of appending a tail
 	cutHeader bool
+	// staleBac: the copy also holds the X.bac files an earlier recovery that was interrupted left behind (a copy of every
+	// non-segment file under its backup name), so that this recovery renames onto existing files
+	// (seeded/R6-C17-m1: fs.Mem Rename refusing an existing destination).
+	staleBac bool
 }
 
 func segFingerprint(env *core.Env) string {
@@ -175,6 +179,17 @@ func runProgramOn(c *core.Ctx, fsk core.FSKind, cfg core.Config, keys [][]byte, 
 					return trace, err
 				}
 				f.Close()
+			}
+			if st.staleBac {
+				if files, err := nenv.ReadDirFiles(nenv.Dir); err == nil {
+					for n, d := range files {
+						if filepath.Ext(n) == ".psg" || n == "lock" || filepath.Ext(n) == ".bac" {
+							continue
+						}
+						nenv.WriteFile(filepath.Join(nenv.Dir, n+".bac"), append([]byte("stale:"), d...))
+						c.Stat("stale_bac_files", 1)
+					}
+				}
 			}
 			db.Close()
 			env = nenv
@@ -389,7 +404,7 @@ func runC17(c *core.Ctx) {
 				tail = make([]byte, 1+rng.Intn(300))
 				rng.Read(tail)
 			}
-			steps = append(steps, c17step{extra: "unclean", tail: tail, cutHeader: rng.Intn(6) == 0})
+			steps = append(steps, c17step{extra: "unclean", tail: tail, cutHeader: rng.Intn(6) == 0, staleBac: len(steps)%3 == 0})
 		case 3:
 			steps = append(steps, c17step{extra: "backup"})
 		}
